@@ -228,6 +228,57 @@ fn build(tier: &str) -> Cost {
         });
     }
 
+    // ---- a state-setting command followed by a command that does work: every row of the table with at most one parameter away from
+    //      its default, then each of 9 probes whose cost is bounded by the state (screen size, margins, tab stops, ...) the first one left
+    {
+        let (w, h) = (80, 25);
+        let mut tup: Vec<Vec<i64>> = tuples(w, h, 1, 0).into_iter().filter(|t| t.len() <= 3).collect();
+        // the text area resize and the margins with two extreme parameters
+        for a in [0i64, 1, 25, 80, 65536, 2_147_483_647] {
+            for b in [0i64, 1, 25, 80, 65536, 2_147_483_647] {
+                tup.push(vec![8, a, b]);
+                tup.push(vec![a, b]);
+            }
+        }
+        let tup = std::rc::Rc::new(tup);
+        let mut combos: Vec<(&'static str, &'static str)> = Vec::new();
+        for p in CSI_PREFIXES {
+            for s in CSI_SUFFIXES {
+                if p.is_empty() || s.is_empty() {
+                    combos.push((p, s));
+                }
+            }
+        }
+        let combos = std::rc::Rc::new(combos);
+        let probes: std::rc::Rc<Vec<&'static [u8]>> = std::rc::Rc::new(vec![
+            b"A\x1b[2147483647b", b"\x1b[2147483647L", b"\x1b[2147483647M", b"\x1b[2147483647A", b"\x1b[2147483647B", b"\x1b[2147483647S", b"\x1b[2147483647T", b"\x1b[2J\x1b[2147483647@", b"\x1b[2147483647I\x1b[2147483647Z",
+        ]);
+        let cx: Vec<(&'static str, Vec<u8>)> = ctxs_for(Emu::Ansi(0), w, h).into_iter().filter(|c| matches!(c.0, "fresh" | "file-loader")).collect();
+        let ctxs = std::rc::Rc::new(cx);
+        let n = tup.len() as u64 * combos.len() as u64 * 63 * ctxs.len() as u64 * probes.len() as u64;
+        let (t2, c2, x2, p2) = (tup.clone(), combos.clone(), ctxs.clone(), probes.clone());
+        fams.push(Family {
+            name: "state-setting command then work probe",
+            count: n,
+            offset: 0,
+            gen: Box::new(move |mut i| {
+                let pi = (i % p2.len() as u64) as usize;
+                i /= p2.len() as u64;
+                let ci = (i % x2.len() as u64) as usize;
+                i /= x2.len() as u64;
+                let fin = 0x40 + (i % 63) as u8;
+                i /= 63;
+                let co = c2[(i % c2.len() as u64) as usize];
+                i /= c2.len() as u64;
+                let t = &t2[i as usize];
+                let tok = csi(co.0, &param_string(t), co.1, fin);
+                let mut input = tok.bytes.clone();
+                input.extend_from_slice(p2[pi]);
+                Case { emu: Emu::Ansi(0), w, h, ctx_name: x2[ci].0, ctx: x2[ci].1.clone(), input, sibling: None, key: format!("ansi:{} then work probe", tok.key) }
+            }),
+        });
+    }
+
     // ---- explicit list families (macros, sixel, avatar, fonts, music, OSC)
     let m7: Vec<i64> = vec![0, 1, 25, 80, 65536, 1_000_000, 2_147_483_647];
     let mut list: Vec<(Emu, String, Vec<u8>)> = Vec::new();
@@ -240,6 +291,10 @@ fn build(tier: &str) -> Cost {
         }
         list.push((Emu::Ansi(0), "DCS macro id".into(), [dcs(&format!("{n};0;0!zAB")), format!("\x1b[{n}*z").into_bytes()].concat()));
         list.push((Emu::Ansi(0), "DCS macro invoke repeat arg".into(), [dcs("1;0;0!zAB"), format!("\x1b[1;{n}*z").into_bytes()].concat()));
+        // a macro under a huge id, then the reports that walk over the macro space
+        for report in ["\x1b[?63;1n", "\x1b[?62n", "\x1b[?63n", "\x1b[?63;2147483647n"] {
+            list.push((Emu::Ansi(0), "DCS macro id then report".into(), [dcs(&format!("{n};0;0!zA")), report.as_bytes().to_vec()].concat()));
+        }
     }
     // recursive macros have to be defined in hex: a literal ESC [ inside a DCS string is a macro invocation at definition time
     let hex = |t: &str| t.bytes().map(|b| format!("{b:02X}")).collect::<String>();
